@@ -223,5 +223,7 @@ HasConstraint(t) ==
     [] t.k = "struct" -> ~t.sized \/ \E i \in DOMAIN t.fields : HasConstraint(t.fields[i])
     [] t.k = "enum" -> TRUE
 \* raw byte strings are interesting for types whose validation can fail on content or header fields
-RawAll == {Catalog[i].id : i \in {i \in DOMAIN Catalog : HasConstraint(Catalog[i].t)}}
+RawAll == {Core[i].id : i \in {i \in DOMAIN Core : HasConstraint(Core[i].t)}}
+SweepAll == SweepIds
+NoIds == {}
 =============================================================================
